@@ -120,6 +120,8 @@ def gen_element(rnd, position, n):
     else:
         cls = rnd.choice(["VCtrl", "VDeco", "VDeco2", "VDecoFalsy"]) if position == 0 else rnd.choice(["VDeco", "VDeco2", "VDecoFalsy"])
     syntax = rnd.choice(["tag", "tag", "type"]) if cls != "VPoolNow" else "tag"
+    if not tail and rnd.random() < 0.08:
+        cls, syntax = "VDecoKw", "type"  # its target is keyword-only: only the all-keyword __type__ syntax can place it
     form = rnd.choice(["map", "list", "bare"]) if syntax == "tag" else "map"
     args, kwargs = [], []
     if form == "map":
@@ -169,7 +171,7 @@ def element_text(e, placeholder=False):
         body = ""
     if placeholder:
         return body or "null"
-    return ("!%s %s" % (e["cls"], body)).strip()
+    return ("!%s %s" % (e.get("tagname") or e["cls"], body)).strip()
 
 
 def gen_case(rnd, spec):
@@ -187,6 +189,10 @@ def gen_case(rnd, spec):
         elements[i] = dict(elements[i], form="map", args=[], kwargs=[(k, ("scalar", rnd.choice(SCALARS[:17]))) for k in keys], anchor="stage%d" % i)
         elements.insert(j, dict(elements[i], anchor=None, alias="stage%d" % i))
         n += 1
+    late = [e for e in elements if e["syntax"] == "tag" and e["cls"] in ("VDeco", "VDeco2") and not e.get("alias") and not e.get("anchor")]
+    if late and n < 1000 and rnd.random() < 0.12:
+        # a tag that is registered on the loader class only now, after earlier configurations have been loaded
+        rnd.choice(late)["tagname"] = "VLate%d" % rnd.randint(0, 10**6)
     fail_at = None
     if rnd.random() < 0.33:
         fail_at = rnd.randint(1, n)  # the k-th construction (from the tail) fails
@@ -360,6 +366,12 @@ def execute(case, result):
 
         importlib.reload(vplug)
         result.count("documents_loaded_after_the_plugin_module_was_reloaded")
+    for e in case["elements"]:
+        if e.get("tagname"):
+            from cobald.daemon.core.config import COBalDLoader, yaml_constructor
+
+            COBalDLoader.add_constructor("!" + e["tagname"], yaml_constructor(getattr(vplug, e["cls"]).s))
+            result.count("documents_using_a_tag_registered_after_earlier_loads")
     vplug.reset(fail_at=case["fail_at"], fail_type=case.get("fail_type", "Injected"))
     err, config = None, None
     try:
@@ -436,6 +448,8 @@ def execute(case, result):
         compare(dict(obj.kwargs), kwargs, eager_seen, problems, "element %d kwargs" % i)
         if e["syntax"] == "type" and e.get("typename", "").count(".") >= 2:
             result.count("type_elements_named_below_a_class")
+        if e["cls"] == "VDecoKw":
+            result.count("type_elements_whose_target_is_keyword_only")
         if e["syntax"] == "type" and e.get("typename", "").endswith(".s"):
             result.count("tail_type_elements_naming_a_template_factory")
         if e["cls"] == "VPoolNow":
@@ -454,8 +468,8 @@ def execute(case, result):
         problems.append("eagerly built tail is not the first construction")
     # the same pipeline built in Python with >>
     for grouping in ("right", "left"):
-        if problems:
-            break
+        if problems or any(e["cls"] == "VDecoKw" for e in case["elements"]):
+            break  # (>> hands the target over positionally: a keyword-only target has no >> twin)
         vplug.reset()
         try:
             twin = python_pipeline(case, grouping)
@@ -513,7 +527,7 @@ def run_shard(spec):
 
 def finish(total, tier):
     for name in ("documents_valid", "documents_with_failing_constructor", "elements_tag_map", "elements_tag_list", "elements_tag_bare",
-                 "elements_type_map", "nested_eager_tags_checked", "tails_built_while_reading", "pipelines_compared_with_rshift", "tail_type_elements_naming_a_template_factory", "elements_written_as_an_alias_of_an_anchored_element", "documents_loaded_after_the_plugin_module_was_reloaded", "pipelines_of_5_or_more_compared_with_left_grouped_rshift", "elements_with_an_argument_that_holds_itself",
+                 "elements_type_map", "nested_eager_tags_checked", "tails_built_while_reading", "pipelines_compared_with_rshift", "type_elements_whose_target_is_keyword_only", "documents_using_a_tag_registered_after_earlier_loads", "tail_type_elements_naming_a_template_factory", "elements_written_as_an_alias_of_an_anchored_element", "documents_loaded_after_the_plugin_module_was_reloaded", "pipelines_of_5_or_more_compared_with_left_grouped_rshift", "elements_with_an_argument_that_holds_itself",
                  "extra_sections_digested", "elements_with_nested_type_helper", "failing_constructor_raising_KeyError", "elements_with_merge_key", "elements_whose_truth_value_is_false", "type_elements_named_below_a_class", "pipelines_of_more_than_1000_elements", "construction_logs_matching_the_pipeline"):
         if not total.counters.get(name) and not total.violations:
             total.inconc("monitor never observed: " + name)
